@@ -32,6 +32,8 @@ def numeval(t, shadow, memo=None):
 def _ev(t, sh, memo):
     if z3.is_rational_value(t):
         return t.numerator_as_long() / t.denominator_as_long()
+    if z3.is_int_value(t):
+        return float(t.as_long())
     if z3.is_true(t):
         return True
     if z3.is_false(t):
